@@ -145,8 +145,27 @@ def rebuild(g, w, b, src, edit):
     return dst
 
 
-def compare(ctx, w, a, b_, fails, label):
+def read_accessors(rec):
+    """every read-only accessor of a record; none of them may change what == and hash see"""
+    from prov.constants import PROV_LABEL, PROV_VALUE
+    _ = (rec.label, rec.value, rec.get_asserted_types(), rec.get_attribute(PROV_LABEL), rec.get_attribute(PROV_VALUE),
+         rec.get_attribute("prov:location"), rec.args, rec.formal_attributes, rec.extra_attributes, rec.attributes,
+         rec.identifier, rec.get_type(), rec.is_element(), rec.is_relation(), rec.get_provn(), str(rec), repr(rec))
+    if hasattr(rec, "get_startTime"):
+        _ = (rec.get_startTime(), rec.get_endTime())
+
+
+def compare(ctx, w, a, b_, fails, label, g=None):
     oa, ob = w.conts[a], w.conts[b_]
+    if g is not None and g.chance(0.5):
+        # read-only uses of one side only, before the comparison
+        side = oa if g.chance(0.5) else ob
+        for rec in list(side.records) + [r for bb in (side.bundles if side.is_document() else []) for r in bb.records]:
+            try:
+                read_accessors(rec)
+            except Exception:  # noqa  (an accessor that raises is judged elsewhere)
+                ctx.count("accessor-raised")
+        ctx.count("accessors-read-before-compare")
     exp = doc_content(oa) == doc_content(ob)
     e1 = w.eq(a, b_)
     e2 = w.eq(b_, a)
@@ -185,12 +204,12 @@ def make_case(ctx, g):
     d2 = rebuild(g, w, b, d, edit)
     ctx.count("edit:" + edit)
     if d2 is not None:
-        compare(ctx, w, d, d2, fails, edit)
+        compare(ctx, w, d, d2, fails, edit, g)
         if g.chance(0.3):
             e3 = g.choice(EDITS[:5])
             d3 = rebuild(g, w, b, d2, e3)
             if d3 is not None:
-                compare(ctx, w, d2, d3, fails, edit + "+" + e3)
+                compare(ctx, w, d2, d3, fails, edit + "+" + e3, g)
                 compare(ctx, w, d, d3, fails, edit + "+" + e3 + " (transitive)")
         # edit a record in place *after* it has been compared / hashed, then compare with a fresh rebuild
         if g.chance(0.5):
